@@ -395,7 +395,12 @@ func c04AdversarialPart(t *testing.T, rep *mc.Report) {
 		}
 		return pend[i].how < pend[j].how
 	})
+	reported := map[string]bool{} // the same failing prefix is reached by many longer sequences
 	for _, v := range pend {
+		if reported[v.sig+"|"+v.how] {
+			continue
+		}
+		reported[v.sig+"|"+v.how] = true
 		rep.Violate(v.sig, v.desc, map[string]any{"sequence": v.how})
 	}
 	if capped.Load() {
